@@ -35,7 +35,9 @@ PROPERTY = "C06"
 RULE = (
     "case = (shape with <=24 cells quick / <=60 thorough, sparse operand(s) as canonical entry lists with 0..8 "
     "nonzeros [two operands: generated overlap, equal / negated / unrelated values on the overlap], one public sparse "
-    "operation and its generated parameters).  Every case is executed for all n! stored orders of each operand with "
+    "operation and its generated parameters; round 2: also the assignments S[..]=.. (family write), allsubs, deepcopy, "
+    "subdims, export_data/import_data, spmatrix->sptenmat.from_array, +sptenmat, tensor <cmp> sptensor, "
+    "tensor.logical_*(sptensor), stepped / empty / reversed slices in region reads).  Every case is executed for all n! stored orders of each operand with "
     "n<=4 nonzeros (6 generated orders + identity beyond; two operands: full product if <=48 else one-at-a-time + 6 "
     "joint).  Oracle: every returned sptensor/sptenmat well-formed, no explicit zero after combining/filtering "
     "operations, and identical outcome (class, shape, denoted values, or exception) for every order; exact for data "
@@ -53,7 +55,19 @@ ASSUMPTIONS = [
     "collapse, region reads, scalar comparisons, from_aggregator, sptenmat(); exempt: scale, scalar * and /, elemfun",
     "float accumulations (ttv, ttm, contract, collapse, innerprod, mttkrp, norm, from_aggregator) may differ between "
     "orders by 64*cells*eps*prod(max(1,max|operand|)); everything else is compared exactly (NaN == NaN)",
-    "nvecs (ARPACK start vector is random), subdims (returns storage positions) and __setitem__ (C04) are not run",
+    "nvecs (ARPACK start vector is random), from_function / sptenrand (random subscripts), __repr__ (prints the stored "
+    "order by design) and the iterative algorithms (cp_als, cp_apr, gcp_opt, tucker_als, hosvd: tolerance-driven "
+    "iterations, judged by C12-C20) are not run",
+    "writes (family write): S[M]=V by subscript array (overwrite / clear / insert / grow in one call, vector or scalar "
+    "right-hand side, duplicate rows 1 in 8), S[ranges]=scalar (index / slice / open / empty / stepped slice / list "
+    "per mode, growth), S[ranges]=sptensor (both operands in every order), S[i,..]=v, sequences of 2..3 assignments, "
+    "sptenmat[r,c]=v: the outcome is the tensor the assignment leaves behind; what the assignment *should* store is C04",
+    "subdims returns storage positions: compared as the (subscript, value) entries they select",
+    "operands: integer-valued data is held in int64 one time in three (independently per operand); float data is "
+    "scaled by 1e-6 / 1e+6 one time in two; the accumulation tolerance is relative (64*cells*eps*prod(max|operand|), "
+    "an all-zero or non-float parameter counts as 1)",
+    "operands holding explicitly stored zeros are not generated here (C03/*/state and C01 judge what they denote); "
+    "explicit zeros in *results* of combining / filtering operations are what this property forbids",
 ]
 
 EPS = np.finfo(float).eps
@@ -70,11 +84,15 @@ def lex_cells(shape):
 
 def build_sp(shape, ent, perm=None):
     n = len(ent["subs"])
+    if ent.get("npshape"):  # the shape as numpy integers (what a grown tensor reports and hands on)
+        shape = [np.int64(v) for v in shape]
     if n == 0:
         return ttb.sptensor(shape=tuple(shape))
     idx = range(n) if perm is None else perm
     subs = np.array([ent["subs"][i] for i in idx], dtype=int).reshape(n, len(shape))
     vals = np.array([ent["vals"][i] for i in idx], dtype=float).reshape(n, 1)
+    if ent.get("dtype", "float64") != "float64":  # integer-valued data held in an integer dtype
+        vals = vals.astype(ent["dtype"])
     return ttb.sptensor(subs, vals, tuple(shape))
 
 
@@ -280,14 +298,21 @@ def tolerance(O, case):
     if not O.accum or case["vkind"] == "int":
         return 0.0
     scale = 1.0
+
+    def mag(x):
+        # magnitude of one factor of a term; data of magnitude 1e-6 gets a bound that is as tight, relatively, as
+        # data of magnitude 1 (a parameter without float entries, or all zero, is not a factor: 1)
+        m = _maxabs(x)
+        return m if m > 0 else 1.0
+
     for k in O.keys:
-        scale *= max(1.0, _maxabs(case[k]["vals"]))
+        scale *= mag(case[k]["vals"])
     for v in (case.get("p") or {}).values():
         if isinstance(v, list) and v and all(isinstance(e, list) for e in v):
             for e in v:  # a list of vectors / matrices: every one of them can be a factor of a term
-                scale *= max(1.0, _maxabs(e))
+                scale *= mag(e)
         else:
-            scale *= max(1.0, _maxabs(v))
+            scale *= mag(v)
     cells = ref.prod(case["shape"]) * 8
     return 64.0 * cells * EPS * scale
 
@@ -886,7 +911,7 @@ op("read", "getitem-linear", _getitem_linear, params=_p_linear)
 def _p_region(draw, tier, shape, vkind, case):
     key = []
     for s in shape:
-        form = draw(st.sampled_from(["int", "neg-int", "full", "slice", "list"]))
+        form = draw(st.sampled_from(["int", "neg-int", "full", "slice", "slice", "list", "step", "empty", "rev"]))
         if form == "int":
             key.append(dict(f=form, v=draw(st.integers(0, s - 1))))
         elif form == "neg-int":
@@ -896,6 +921,14 @@ def _p_region(draw, tier, shape, vkind, case):
         elif form == "slice":
             a = draw(st.integers(0, s - 1))
             key.append(dict(f=form, v=[a, draw(st.integers(a + 1, s))]))
+        elif form == "step":  # every second index
+            a = draw(st.integers(0, s - 1))
+            key.append(dict(f=form, v=[a, draw(st.integers(a + 1, s)), 2]))
+        elif form == "empty":  # a range without any index
+            a = draw(st.integers(0, s - 1))
+            key.append(dict(f=form, v=[a, a, 1]))
+        elif form == "rev":  # the whole mode backwards
+            key.append(dict(f=form, v=[None, None, -1]))
         else:
             key.append(dict(f=form, v=sorted(draw(st.sets(st.integers(0, s - 1), min_size=1, max_size=s)))))
     return dict(key=key)
@@ -906,7 +939,8 @@ def _region_key(p):
     for k in p["key"]:
         f = k["f"]
         out.append(k["v"] if f in ("int", "neg-int") else (slice(None) if f == "full" else (
-            slice(k["v"][0], k["v"][1]) if f == "slice" else list(k["v"]))))
+            slice(k["v"][0], k["v"][1]) if f == "slice" else (
+                slice(k["v"][0], k["v"][1], k["v"][2]) if f in ("step", "empty", "rev") else list(k["v"])))))
     return tuple(out)
 
 
@@ -945,6 +979,262 @@ def _kt_mask(X, p, c):
 
 op("read", "ktensor-mask", _kt_mask, params=_p_kt_other, accum=True)
 
+# ---------------------------------------------------------------- writes: S[...] = ... (the outcome is the tensor itself)
+#
+# The engine builds a fresh operand for every stored order, so an assignment may change it in place; what is
+# compared between the orders is the tensor the assignment leaves behind (well-formed, no explicit zero after an
+# assignment that clears entries, the same array and shape for every stored order - or the same exception).
+
+
+def _row_cells(draw, shape, own, k, grow):
+    """k subscript rows: stored subscripts of the operand, other cells, and (grow) cells just outside the shape"""
+    cells = lex_cells(shape)
+    rows = []
+    for _ in range(k):
+        how = draw(st.sampled_from(["own", "own", "cell", "outside"] if grow else ["own", "own", "cell"]))
+        if how == "own" and own:
+            rows.append(list(own[draw(st.integers(0, len(own) - 1))]))
+        elif how == "outside":
+            r = list(cells[draw(st.integers(0, len(cells) - 1))])
+            m = draw(st.integers(0, len(shape) - 1))
+            r[m] = shape[m] + draw(st.integers(0, 1))
+            rows.append(r)
+        else:
+            rows.append(list(cells[draw(st.integers(0, len(cells) - 1))]))
+    return rows
+
+
+@st.composite
+def _p_set_subs(draw, tier, shape, vkind, case):
+    """S[M] = V: rows of M hit stored entries (overwrite with a nonzero / clear with 0), empty cells (insert /
+    no-op) and, one time in three, cells outside the shape (growth).  Rows are distinct 7 times in 8."""
+    own = case["a"]["subs"]
+    k = draw(st.integers(1, 6))
+    rows = _row_cells(draw, shape, own, k, grow=draw(st.integers(0, 2)) == 0)
+    if draw(st.integers(0, 7)):
+        seen, uniq = set(), []
+        for r in rows:
+            if tuple(r) not in seen:
+                seen.add(tuple(r)), uniq.append(r)
+        rows = uniq
+    form = draw(st.sampled_from(["vector", "vector", "vector", "scalar"]))
+    if form == "scalar":
+        v = draw(st.sampled_from([0.0, 0.0, 1.0, -2.0, 2.5]))
+        return dict(subs=rows, form=form, vals=[v], as_int=float(v).is_integer() and draw(st.booleans()))
+    vals = [0.0 if draw(st.integers(0, 2)) == 0 else draw(gen.values(vkind, nonzero=True)) for _ in rows]
+    return dict(subs=rows, form=form, vals=vals)
+
+
+def _do_set_subs(S, p):
+    n = len(p["subs"])
+    M = arr(p["subs"], int).reshape(n, len(p["subs"][0]))
+    if p["form"] == "scalar":
+        v = p["vals"][0]
+        S[M] = int(v) if p.get("as_int") else float(v)
+    else:
+        S[M] = arr(p["vals"]).reshape(n, 1)
+    return S
+
+
+op("write", "setitem-subs", lambda X, p, c: _do_set_subs(X["a"], p), params=_p_set_subs, combine=True)
+
+
+@st.composite
+def _p_set_region(draw, tier, shape, vkind, case, rhs_sparse=False):
+    """S[R1,..,Rn] = c: every mode addressed by an index, a slice (also open, empty, stepped) or an index list; one
+    time in three the region reaches beyond the shape (growth).  rhs_sparse: no integer keys (the right-hand side
+    then has one mode per range), the lengths of the ranges give its shape."""
+    grow = draw(st.integers(0, 2)) == 0
+    key = []
+    for s in shape:
+        hi = s + 1 if grow and draw(st.booleans()) else s
+        forms = ["full", "slice", "slice", "list"] + ([] if rhs_sparse else ["int", "int", "step", "empty"])
+        form = draw(st.sampled_from(forms))
+        if form == "int":
+            key.append(dict(f=form, v=draw(st.integers(0, hi - 1))))
+        elif form == "full":
+            key.append(dict(f=form))
+        elif form == "slice":
+            a = draw(st.integers(0, hi - 1))
+            key.append(dict(f=form, v=[a, draw(st.integers(a + 1, hi))]))
+        elif form == "step":
+            a = draw(st.integers(0, s - 1))
+            key.append(dict(f=form, v=[a, draw(st.integers(a + 1, s)), 2]))
+        elif form == "empty":
+            a = draw(st.integers(0, s - 1))
+            key.append(dict(f=form, v=[a, a]))
+        else:
+            key.append(dict(f=form, v=sorted(draw(st.sets(st.integers(0, hi - 1), min_size=1, max_size=hi)))))
+    out = dict(key=key)
+    if rhs_sparse:
+        out["rshape"] = [s if k["f"] == "full" else (k["v"][1] - k["v"][0] if k["f"] == "slice" else len(k["v"]))
+                         for k, s in zip(key, shape)]
+        out["list_as_array"] = draw(st.booleans())
+    else:
+        v = draw(st.sampled_from([0.0, 0.0, 1.0, -2.0, 2.5]))
+        out["value"], out["as_int"] = v, float(v).is_integer() and draw(st.booleans())
+    return out
+
+
+def _set_key(p):
+    out = []
+    for k in p["key"]:
+        f = k["f"]
+        if f == "int":
+            out.append(k["v"])
+        elif f == "full":
+            out.append(slice(None))
+        elif f in ("slice", "empty"):
+            out.append(slice(k["v"][0], k["v"][1]))
+        elif f == "step":
+            out.append(slice(k["v"][0], k["v"][1], k["v"][2]))
+        else:
+            out.append(arr(k["v"], int) if p.get("list_as_array") else list(k["v"]))
+    return tuple(out)
+
+
+def _do_set_region(S, p):
+    v = p["value"]
+    S[_set_key(p)] = int(v) if p.get("as_int") else float(v)
+    return S
+
+
+op("write", "setitem-region", lambda X, p, c: _do_set_region(X["a"], p), params=_p_set_region, combine=True)
+
+
+@st.composite
+def _p_set_region_sparse(draw, tier, shape, vkind, case):
+    return draw(_p_set_region(tier, shape, vkind, case, rhs_sparse=True))
+
+
+def _do_set_region_sparse(X, p, c):
+    S = X["a"]
+    S[_set_key(p)] = X["b"]
+    return S
+
+
+op("write", "setitem-region-sptensor", _do_set_region_sparse, params=_p_set_region_sparse, keys=("a", "b"),
+   bshape=lambda case: case["p"]["rshape"], combine=True)
+
+
+@st.composite
+def _p_set_element(draw, tier, shape, vkind, case):
+    own = case["a"]["subs"]
+    r = _row_cells(draw, shape, own, 1, grow=draw(st.integers(0, 2)) == 0)[0]
+    v = 0.0 if draw(st.integers(0, 2)) == 0 else draw(gen.values(vkind, nonzero=True))
+    return dict(sub=r, value=v, as_int=float(v).is_integer() and draw(st.booleans()),
+                negative=len(shape) > 1 and draw(st.booleans()) and all(i < n for i, n in zip(r, shape)))
+
+
+def _do_set_element(S, p, c):
+    key = tuple(i - n if p["negative"] else i for i, n in zip(p["sub"], c["shape"]))
+    if len(key) == 1:
+        key = key[0]  # a 1-way tensor takes S[i] = v
+    S[key] = int(p["value"]) if p["as_int"] else float(p["value"])
+    return S
+
+
+op("write", "setitem-element", lambda X, p, c: _do_set_element(X["a"], p, c), params=_p_set_element, combine=True)
+
+
+@st.composite
+def _p_set_seq(draw, tier, shape, vkind, case):
+    """2..3 assignments in a row on the same object (subscript arrays / regions / single elements): every later
+    one works on the state the earlier ones left behind"""
+    steps = []
+    for _ in range(draw(st.integers(2, 3))):
+        kind = draw(st.sampled_from(["subs", "subs", "region", "element"]))
+        sub = dict(subs=_p_set_subs, region=_p_set_region, element=_p_set_element)[kind]
+        steps.append(dict(kind=kind, p=draw(sub(tier, shape, vkind, case))))
+    return dict(steps=steps)
+
+
+def _do_set_seq(X, p, c):
+    S = X["a"]
+    for stp in p["steps"]:
+        if stp["kind"] == "subs":
+            _do_set_subs(S, stp["p"])
+        elif stp["kind"] == "region":
+            _do_set_region(S, stp["p"])
+        else:
+            _do_set_element(S, stp["p"], c)
+    return S
+
+
+op("write", "setitem-sequence", _do_set_seq, params=_p_set_seq, combine=True)
+
+
+@st.composite
+def _p_set_sptenmat(draw, tier, shape, vkind, case):
+    from .c01 import expected_split, split_spec
+
+    spec = draw(split_spec(len(shape)))
+    rd, cd = expected_split(len(shape), spec)
+    nr, nc = ref.prod(shape[d] for d in rd), ref.prod(shape[d] for d in cd)
+    form = draw(st.sampled_from(["element", "element", "block"]))
+    if form == "element":
+        r, cc = [draw(st.integers(0, nr - 1))], [draw(st.integers(0, nc - 1))]
+    else:
+        r = sorted(draw(st.sets(st.integers(0, nr - 1), min_size=1, max_size=min(nr, 3))))
+        cc = sorted(draw(st.sets(st.integers(0, nc - 1), min_size=1, max_size=min(nc, 3))))
+    return dict(split=spec, form=form, rows=r, cols=cc, value=draw(gen.values(vkind, nonzero=True)))
+
+
+def _do_set_sptenmat(X, p, c):
+    M = X["a"].to_sptenmat(**_kw(p))
+    if p["form"] == "element":
+        M[p["rows"][0], p["cols"][0]] = float(p["value"])
+    else:
+        M[arr(p["rows"], int), arr(p["cols"], int)] = float(p["value"])
+    return M
+
+
+op("write", "to_sptenmat.setitem", _do_set_sptenmat, params=_p_set_sptenmat)
+
+# ---------------------------------------------------------------- further public operations on a sparse operand
+
+op("structure", "allsubs", lambda X, p, c: X["a"].allsubs())
+op("structure", "deepcopy", lambda X, p, c: __import__("copy").deepcopy(X["a"]))
+op("structure", "spmatrix.from_array",
+   lambda X, p, c: ttb.sptenmat.from_array(X["a"].spmatrix(), arr([0], int), arr([1], int), tuple(c["shape"])),
+   shapes=lambda tier: gen.shapes(tier, min_order=2, **dict(_limits(tier), max_order=2)), combine=True)
+op("sptenmat", "to_sptenmat.pos", lambda X, p, c: +X["a"].to_sptenmat(**_kw(p)), params=_p_split)
+
+
+def _subdims(X, p, c):
+    """subdims returns storage positions (order dependent by design): compared as the entries they select"""
+    S = X["a"]
+    loc = np.asarray(S.subdims(list(_region_key(p)))).astype(int).reshape(-1)
+    D = np.zeros(tuple(c["shape"]))
+    cnt = np.zeros(tuple(c["shape"]))
+    for i in loc:
+        D[tuple(int(v) for v in S.subs[i])] += float(S.vals[i, 0])
+        cnt[tuple(int(v) for v in S.subs[i])] += 1
+    return (D, cnt)
+
+
+def _export_import(X, p, c):
+    import os
+    import tempfile
+
+    fd, path = tempfile.mkstemp(suffix=".tns", dir=os.environ.get("TMPDIR", "/tmp"))
+    os.close(fd)
+    try:
+        ttb.export_data(X["a"], path)
+        return ttb.import_data(path)
+    finally:
+        os.unlink(path)
+
+
+for _n, _f in CMP.items():
+    op("compare-tensor", f"tensor-{_n}", (lambda f: lambda X, p, c: f(_T(p, c), X["a"]))(_f), params=_p_dense_other)
+for _n in ("logical_and", "logical_or", "logical_xor"):
+    op("logical", f"tensor-{_n}", (lambda n: lambda X, p, c: getattr(_T(p, c), n)(X["a"]))(_n),
+       params=_p_dense_other)
+
+op("read", "subdims", _subdims, params=_p_region)
+op("io", "export-import", _export_import)
+
 # ---------------------------------------------------------------- holders built around a sparse tensor
 
 
@@ -982,9 +1272,25 @@ def family_case(draw, tier, fam):
         case["a"], case["b"] = draw(entries_pair(shape, vkind))
     else:
         case["a"] = draw((O.ents or entries)(shape, vkind))
+    # data magnitudes (order independence is scale-free; the accumulation tolerance is relative to the magnitudes)
+    vscale = draw(st.sampled_from([1.0, 1.0, 1e-6, 1e6])) if vkind == "float" else 1.0
+    case["vscale"] = vscale
+    if vscale != 1.0:
+        for k in ("a", "b"):
+            if k in case:
+                case[k]["vals"] = [v * vscale for v in case[k]["vals"]]
     case["p"] = draw(O.params(tier, shape, vkind, case)) if O.params else {}
     if O.keys == ("a", "b") and O.bshape is not None:
         case["b"] = draw(entries(O.bshape(case), vkind))
+    # value dtypes: integer-valued operands are held in int64 one time in three, independently of each other
+    if vkind == "int" and O.build is None:
+        for k in O.keys:
+            if draw(st.integers(0, 2)) == 0:
+                case[k]["dtype"] = "int64"
+    if O.build is None:
+        for k in O.keys:
+            if draw(st.integers(0, 3)) == 0:
+                case[k]["npshape"] = True
     orders = {}
     for k in O.keys:
         orders[k] = draw(orders_for(len(case[k]["subs"])))
@@ -1006,7 +1312,9 @@ def _run(ctx, case):
     tol = tolerance(O, case)
     nmax = max(len(case[k]["subs"]) for k in O.keys)
     ctx.label("op-" + name, *gen.shape_classes(case["shape"]), "v-" + case["vkind"],
-              "nnz" + (str(nmax) if nmax <= 4 else "5+"))
+              "nnz" + (str(nmax) if nmax <= 4 else "5+"), f"vscale-{case.get('vscale', 1.0):g}",
+              "dtypes-" + "/".join(case[k].get("dtype", "float64") for k in O.keys),
+              "numpy-int-shape" if any(case[k].get("npshape") for k in O.keys) else "python-int-shape")
     base = None
     base_combo = None
     nrun = 0
@@ -1068,6 +1376,8 @@ BUDGET = {
     "isequal": (300, 6000),
     "read": (500, 10000),
     "holder": (200, 4000),
+    "write": (700, 14000),
+    "io": (60, 1000),
 }
 
 for _fam in FAMILIES:
